@@ -3,6 +3,7 @@
 mod c15;
 mod c18;
 mod c35;
+mod actions;
 mod gtchk;
 mod oraclechk;
 mod world;
@@ -20,7 +21,7 @@ fn main() {
     let _saved = mc_core::silence_stdout();
     svm::install();
     let rep: Report = match cli.property.as_str() {
-        "SELFTEST" => match svm::selftest() {
+        "SELFTEST" => match svm::selftest().and_then(|_| world::selftest()) {
             Ok(()) => {
                 eprintln!("svm-lite selftest ok");
                 std::process::exit(0)
@@ -34,6 +35,7 @@ fn main() {
         "C16" => cfgkeys::run_c16(&cli),
         "C17" => cfgkeys::run_c17(&cli),
         "C18" => c18::run(&cli),
+        "C22" | "C23" => actions::run(&cli),
         "C24" => oraclechk::run_c24(&cli),
         "C25" => oraclechk::run_c25(&cli),
         "C29" => oraclechk::run_c29(&cli),
